@@ -107,11 +107,11 @@ Definition params_ok (ps : list pgroup) : Prop :=
 Definition res_ok (rs : list rgroup) : Prop :=
   rs = [] \/ exists n, n <= 1 /\ rs = [{| rnames := n; rkind_ := RKError |}].
 
-(* no receiver, or a receiver of an (exported) type declared as mg.Namespace *)
+(* no receiver, or a receiver of an (exported, non-generic) type declared as mg.Namespace *)
 Definition recv_ok (pk : pkg) (d : fdecl) : Prop :=
   recv d = None \/
   exists tn ptr t, recv d = Some (tn, ptr) /\ In t (types pk) /\ tname t = tn /\
-                   is_namespace t = true /\ exported tn = true.
+                   is_namespace t = true /\ tgeneric t = false /\ exported tn = true.
 
 Definition valid_sig (pk : pkg) (d : fdecl) : Prop :=
   exported (fname d) = true /\ tparams d = false /\ recv_ok pk d /\ params_ok (params d) /\ res_ok (res d).
@@ -306,13 +306,18 @@ Proof.
     rewrite Hn, He, F. simpl. now left.
 Qed.
 
+Lemma isNamespace_spec : forall t, isNamespace t = true <-> is_namespace t = true /\ tgeneric t = false.
+Proof.
+  intros t. unfold isNamespace, isNamespace_. simpl. destruct (tgeneric t), (is_namespace t); split; intros H; try discriminate; auto; destruct H; discriminate.
+Qed.
+
 Lemma in_setNamespaces : forall pk d f,
   In (d, f) (setNamespaces pk) <->
-  exists t, In t (doc_types pk) /\ is_namespace t = true /\ In d (doc_methods pk t) /\
+  exists t, In t (doc_types pk) /\ isNamespace t = true /\ In d (doc_methods pk t) /\
             exists f0, funcType d = Some f0 /\ f = mkfn d (tname t) f0.
 Proof.
-  intros pk d f. unfold setNamespaces. rewrite in_flat_map. split.
-  - intros (t & Ht & H). destruct (is_namespace t) eqn:N; simpl in H; [|destruct H].
+  intros pk d f. unfold setNamespaces, setNamespaces_. fold isNamespace. rewrite in_flat_map. split.
+  - intros (t & Ht & H). destruct (isNamespace t) eqn:N; simpl in H; [|destruct H].
     apply in_flat_map in H. destruct H as (d' & Hd & H).
     destruct (exported (fname d')); simpl in H; [|destruct H].
     destruct (funcType d') as [f0|] eqn:F; [|destruct H].
@@ -328,7 +333,7 @@ Proof. intros rs [->|(n & _ & ->)]; reflexivity. Qed.
 
 Theorem exact : forall pk d, In d (decls pk) -> (is_target pk d <-> valid_sig pk d).
 Proof.
-  intros pk d Hin. unfold is_target, targets, valid_sig. split.
+  intros pk d Hin. unfold is_target, targets, targets_, valid_sig. fold setNamespaces. split.
   - intros [f H]. apply in_app_or in H. destruct H as [H|H].
     + apply in_setNamespaces in H. destruct H as (t & Ht & N & Hd & f0 & F & _).
       unfold doc_types in Ht. apply filter_In in Ht. destruct Ht as [Ht Et].
@@ -337,7 +342,7 @@ Proof.
       destruct (proj1 (funcType_some_iff d) (ex_intro _ f0 F)) as (T & P & R).
       repeat split; try assumption.
       right. destruct (recv d) as [[tn ptr]|] eqn:Er; [|discriminate].
-      apply String.eqb_eq in Hr. subst tn. exists (tname t), ptr, t. auto.
+      apply String.eqb_eq in Hr. subst tn. apply isNamespace_spec in N. destruct N as [N G]. exists (tname t), ptr, t. auto 10.
     + apply in_setFuncs in H. destruct H as (Hd & f0 & F & _).
       unfold doc_funcs in Hd. apply filter_In in Hd. destruct Hd as [_ Hc].
       apply andb_prop in Hc. destruct Hc as [Hc _]. apply andb_prop in Hc. destruct Hc as [Hn He].
@@ -346,12 +351,12 @@ Proof.
       left. unfold no_recv in Hn. destruct (recv d); [discriminate|reflexivity].
   - intros (E & T & Rc & P & R).
     destruct (proj2 (funcType_some_iff d) (conj T (conj P R))) as [f0 F].
-    destruct Rc as [Rc|(tn & ptr & t & Rc & Ht & <- & N & Et)].
+    destruct Rc as [Rc|(tn & ptr & t & Rc & Ht & <- & N & G & Et)].
     + exists (mkfn d "" f0). apply in_or_app. right. apply in_setFuncs. split; [|eauto].
       unfold doc_funcs. apply filter_In. split; [assumption|].
       unfold no_recv, is_factory. rewrite Rc, E, (res_ok_not_factory _ R). reflexivity.
     + exists (mkfn d (tname t) f0). apply in_or_app. left. apply in_setNamespaces.
-      exists t. split; [unfold doc_types; apply filter_In; auto|]. split; [assumption|].
+      exists t. split; [unfold doc_types; apply filter_In; auto|]. split; [apply isNamespace_spec; auto|].
       split; [|eauto]. unfold doc_methods. apply filter_In. split; [assumption|].
       rewrite Rc, String.eqb_refl, E. reflexivity.
 Qed.
@@ -361,7 +366,7 @@ Lemma target_inv : forall pk d f, In (d, f) (targets pk) ->
   exists f0 r, funcType d = Some f0 /\ f = mkfn d r f0 /\
                (r = "" /\ recv d = None \/ exists ptr, recv d = Some (r, ptr) /\ exported r = true).
 Proof.
-  intros pk d f H. unfold targets in H. apply in_app_or in H. destruct H as [H|H].
+  intros pk d f H. unfold targets, targets_ in H. fold setNamespaces in H. apply in_app_or in H. destruct H as [H|H].
   - apply in_setNamespaces in H. destruct H as (t & Ht & N & Hd & f0 & F & ->).
     exists f0, (tname t). split; [assumption|]. split; [reflexivity|]. right.
     unfold doc_methods in Hd. apply filter_In in Hd. destruct Hd as [_ Hc].
@@ -648,34 +653,142 @@ Proof.
   apply IH. intros X. apply H. now right.
 Qed.
 
-Definition one_other_name (s : vspec) : Prop := exists n, vnames s = [n] /\ n <> "Default".
-
-Lemma one_name_prefix : forall s1, (forall s, In s s1 -> one_other_name s) ->
-  List.length (value_names s1) = List.length s1 /\ ~ In "Default" (value_names s1).
+Lemma index_of_found : forall n l1 l2, ~ In n l1 -> index_of n (l1 ++ n :: l2) 0 = Some (List.length l1).
 Proof.
-  induction s1 as [|s s1 IH]; intros H; simpl; [split; [reflexivity|intros []]|].
-  destruct (H s (or_introl eq_refl)) as (n & E & N).
-  destruct (IH (fun s' Hs => H s' (or_intror Hs))) as [L NI].
-  unfold value_names in *. rewrite E. simpl. split; [now rewrite L|].
-  intros [X|X]; [congruence|contradiction].
+  intros n l1 l2 H. rewrite index_of_skip by exact H. simpl. now rewrite String.eqb_refl.
 Qed.
 
-(* `Default` declared in a spec of its own, behind specs that declare one name each: the
-   declared function is the default target (or none, when it is not a target) *)
-Theorem setDefault_plain : forall pre post s1 spec s2 more e rest fs,
-  (forall v, In v pre -> ~ In "Default" (value_names v)) ->
-  (forall s, In s s1 -> one_other_name s) ->
-  vnames spec = "Default" :: more -> vvalues spec = VRef e :: rest ->
-  setDefault_in (pre ++ (s1 ++ spec :: s2) :: post) fs =
-    match getFunction e fs with Some f => DSome f | None => DNone end.
+(* Go's own pairing of names and values inside one spec: value i belongs to name i, provided the
+   spec has one value per name *)
+Definition own_value (spec : vspec) (i : nat) : option vexpr :=
+  if Nat.eqb (List.length (vvalues spec)) (List.length (vnames spec)) then nth_error (vvalues spec) i else None.
+
+Definition dflt_of (o : option vexpr) (fs : list function) : dres :=
+  match o with
+  | Some (VRef e) => match getFunction e fs with Some f => DSome f | None => DNone end
+  | _ => DNone
+  end.
+
+(* what go/doc's export filter does to names keeps "Default" where it is and invents no "Default" *)
+Definition uscore (n : string) : string := if exported n then n else "_".
+
+Lemma uscore_default : forall n, uscore n = "Default" <-> n = "Default".
 Proof.
-  induction pre as [|v pre IH]; intros post s1 spec s2 more e rest fs Hpre Hs1 Hn Hv.
-  - simpl. destruct (one_name_prefix s1 Hs1) as [L NI].
-    unfold value_names in *. rewrite flat_map_app. rewrite index_of_skip by exact NI.
-    simpl. rewrite Hn. simpl. rewrite L.
-    rewrite nth_error_app2 by lia. rewrite Nat.sub_diag. simpl. rewrite Hv. reflexivity.
-  - simpl. rewrite (index_of_notin _ _ 0 (Hpre v (or_introl eq_refl))).
-    eapply IH; eauto. intros v' Hv'. apply Hpre. now right.
+  intros n. unfold uscore. split.
+  - destruct (exported n); [auto|discriminate].
+  - intros ->. reflexivity.
+Qed.
+
+Lemma notin_map_uscore : forall l, ~ In "Default" l -> ~ In "Default" (map uscore l).
+Proof.
+  intros l H X. apply in_map_iff in X. destruct X as (n & E & I). apply (proj1 (uscore_default n)) in E. apply H. rewrite <- E. exact I.
+Qed.
+
+Lemma notin_filter_exported : forall l, ~ In "Default" l -> ~ In "Default" (filter exported l).
+Proof. intros l H X. apply filter_In in X. destruct X; contradiction. Qed.
+
+Lemma filter_spec_notin : forall s s', ~ In "Default" (vnames s) -> filter_spec s = Some s' -> ~ In "Default" (vnames s').
+Proof.
+  intros s s' H F. unfold filter_spec in F.
+  destruct (negb (Nat.eqb (List.length (vvalues s)) 0) || (negb (vtyped s) && Nat.eqb (List.length (vvalues s)) 0)).
+  - destruct (existsb exported (vnames s)); [|discriminate]. inversion F; subst. simpl.
+    now apply notin_map_uscore.
+  - destruct (Nat.eqb (List.length (filter exported (vnames s))) 0); [discriminate|]. inversion F; subst. simpl.
+    now apply notin_filter_exported.
+Qed.
+
+Lemma filter_specs_notin : forall v, (forall s, In s v -> ~ In "Default" (vnames s)) ->
+  forall s', In s' (filter_specs v) -> ~ In "Default" (vnames s').
+Proof.
+  intros v H s' I. unfold filter_specs in I. apply in_flat_map in I. destruct I as (s & Is & X).
+  destruct (filter_spec s) as [s0|] eqn:F; [|destruct X]. destruct X as [<-|[]].
+  eapply filter_spec_notin; eauto.
+Qed.
+
+Lemma declaredValue_notin : forall v, (forall s, In s v -> ~ In "Default" (vnames s)) -> declaredValue v "Default" = DVNotFound.
+Proof.
+  induction v as [|s v IH]; intros H; simpl; [reflexivity|].
+  rewrite (index_of_notin _ _ 0 (H s (or_introl eq_refl))). apply IH. intros s' I. apply H. now right.
+Qed.
+
+Lemma declaredValue_app : forall v1 v2, (forall s, In s v1 -> ~ In "Default" (vnames s)) ->
+  declaredValue (v1 ++ v2) "Default" = declaredValue v2 "Default".
+Proof.
+  induction v1 as [|s v1 IH]; intros v2 H; simpl; [reflexivity|].
+  rewrite (index_of_notin _ _ 0 (H s (or_introl eq_refl))). apply IH. intros s' I. apply H. now right.
+Qed.
+
+Lemma value_names_notin : forall v, ~ In "Default" (value_names v) -> forall s, In s v -> ~ In "Default" (vnames s).
+Proof.
+  intros v H s I X. apply H. unfold value_names. apply in_flat_map. eauto.
+Qed.
+
+Lemma setDefault_new_app : forall A B fs,
+  (forall v, In v A -> forall s, In s v -> ~ In "Default" (vnames s)) ->
+  setDefault_new (A ++ B) fs = setDefault_new B fs.
+Proof.
+  induction A as [|v A IH]; intros B fs H; simpl; [reflexivity|].
+  rewrite (declaredValue_notin v (H v (or_introl eq_refl))). apply IH. intros v' I. apply H. now right.
+Qed.
+
+(* the spec that declares Default after go/doc's filter: same place, same own value *)
+Lemma filter_spec_default : forall spec n1 n2, vnames spec = n1 ++ "Default" :: n2 -> ~ In "Default" n1 ->
+  exists spec' m1 m2, filter_spec spec = Some spec' /\ vnames spec' = m1 ++ "Default" :: m2 /\ ~ In "Default" m1 /\
+    match index_of "Default" (vnames spec') 0 with
+    | Some i => if negb (Nat.eqb (List.length (vvalues spec')) (List.length (vnames spec'))) then None
+                else nth_error (vvalues spec') i
+    | None => None
+    end = own_value spec (List.length n1).
+Proof.
+  intros spec n1 n2 E N. unfold filter_spec, own_value.
+  assert (X : existsb exported (vnames spec) = true).
+  { apply existsb_exists. exists "Default". split; [rewrite E; apply in_or_app; right; now left|reflexivity]. }
+  destruct (negb (Nat.eqb (List.length (vvalues spec)) 0) || (negb (vtyped spec) && Nat.eqb (List.length (vvalues spec)) 0)) eqn:C.
+  - rewrite X. eexists. exists (map uscore n1), (map uscore n2). split; [reflexivity|]. simpl.
+    fold uscore. rewrite E, map_app. simpl. split; [reflexivity|]. split; [now apply notin_map_uscore|].
+    rewrite index_of_found by (now apply notin_map_uscore).
+    rewrite !app_length, !map_length. simpl. rewrite !map_length.
+    destruct (Nat.eqb (List.length (vvalues spec)) (List.length n1 + S (List.length n2))); reflexivity.
+  - apply orb_false_elim in C. destruct C as [C1 C2]. apply negb_false_iff in C1. apply Nat.eqb_eq in C1.
+    assert (F : filter exported (vnames spec) = filter exported n1 ++ "Default" :: filter exported n2)
+      by (rewrite E, filter_app; reflexivity).
+    rewrite F. destruct (Nat.eqb (List.length (filter exported n1 ++ "Default" :: filter exported n2)) 0) eqn:Z.
+    { apply Nat.eqb_eq in Z. rewrite app_length in Z. simpl in Z. lia. }
+    eexists. exists (filter exported n1), (filter exported n2). split; [reflexivity|]. simpl.
+    split; [reflexivity|]. split; [now apply notin_filter_exported|].
+    rewrite index_of_found by (now apply notin_filter_exported).
+    rewrite C1, E, !app_length. simpl.
+    destruct (List.length (filter exported n1) + S (List.length (filter exported n2))) eqn:L1; [lia|].
+    destruct (List.length n1 + S (List.length n2)) eqn:L2; [lia|]. reflexivity.
+Qed.
+
+(* the unrestricted statement: wherever Default is first declared - any declaration, any spec of it,
+   any position among the names of that spec - the default target is the function named by the
+   value at Default's position in that spec, iff that is a target *)
+Theorem setDefault_declared : forall pk pre s1 spec s2 post n1 n2,
+  vars pk = pre ++ (s1 ++ spec :: s2) :: post ->
+  (forall v, In v pre -> ~ In "Default" (value_names v)) ->
+  (forall s, In s s1 -> ~ In "Default" (vnames s)) ->
+  vnames spec = n1 ++ "Default" :: n2 -> ~ In "Default" n1 ->
+  setDefault pk = dflt_of (own_value spec (List.length n1)) (funcs pk).
+Proof.
+  intros pk pre s1 spec s2 post n1 n2 EV Hpre Hs1 En Hn1.
+  unfold setDefault, setDefault_, setDefault_in, doc_vars. rewrite EV, map_app, filter_app. simpl.
+  rewrite setDefault_new_app.
+  2:{ intros v I. apply filter_In in I. destruct I as [I _]. apply in_map_iff in I. destruct I as (v0 & <- & I0).
+      apply filter_specs_notin. apply value_names_notin. now apply Hpre. }
+  destruct (filter_spec_default spec n1 n2 En Hn1) as (spec' & m1 & m2 & F & En' & Hm1 & OV).
+  assert (FS : filter_specs (s1 ++ spec :: s2) = filter_specs s1 ++ spec' :: filter_specs s2).
+  { unfold filter_specs. rewrite flat_map_app. simpl. now rewrite F. }
+  rewrite FS.
+  destruct (Nat.eqb (List.length (filter_specs s1 ++ spec' :: filter_specs s2)) 0) eqn:Z.
+  { apply Nat.eqb_eq in Z. rewrite app_length in Z. simpl in Z. lia. }
+  simpl. rewrite declaredValue_app by (apply filter_specs_notin; exact Hs1).
+  simpl. rewrite <- OV.
+  destruct (index_of "Default" (vnames spec') 0) as [i|] eqn:I.
+  - destruct (negb (Nat.eqb (List.length (vvalues spec')) (List.length (vnames spec')))); [reflexivity|].
+    destruct (nth_error (vvalues spec') i) as [[e|kvs]|]; reflexivity.
+  - exfalso. rewrite En', index_of_found in I by exact Hm1. discriminate.
 Qed.
 
 (* exactly the entries of the default target's (name, receiver) carry the mark *)
@@ -691,7 +804,7 @@ Proof.
   - now rewrite app_empty_r.
 Qed.
 
-(* the defect that remains in setDefault: v.Decl.Specs is indexed with an index into v.Names *)
+(* the defect repaired by 3720af9: v.Decl.Specs was indexed with an index into v.Names *)
 Definition fn0 (n : string) : fdecl :=
   {| fname := n; recv := None; tparams := false; params := []; res := []; fdoc := ""; fsyn := "" |}.
 Definition spec1 (n : string) (e : fref) : vspec := {| vnames := [n]; vtyped := false; vvalues := [VRef e] |}.
@@ -700,20 +813,43 @@ Definition pk_wrong_default : pkg :=
      vars := [[ {| vnames := ["A"; "B"]; vtyped := false; vvalues := [VRef FOther; VRef FOther] |};
                 spec1 "Default" (FIdent "Build"); spec1 "Q" (FIdent "Other") ]];
      pkgdoc := "" |}.
-Theorem default_wrong_spec_refuted :
+Theorem default_wrong_spec_before_repair_refuted :
   exists pk v f, In v (vars pk) /\ In (spec1 "Default" (FIdent "Build")) v /\
-                 setDefault pk = DSome f /\ f_name f = "Other".
+                 setDefault_ false pk = DSome f /\ f_name f = "Other" /\
+                 exists g, setDefault pk = DSome g /\ f_name g = "Build".
 Proof.
   exists pk_wrong_default. eexists. eexists. split; [left; reflexivity|].
-  split; [right; left; reflexivity|]. split; vm_compute; reflexivity.
+  split; [right; left; reflexivity|]. split; [vm_compute; reflexivity|]. split; [vm_compute; reflexivity|].
+  eexists. split; vm_compute; reflexivity.
 Qed.
 
 Definition pk_panic_default : pkg :=
   {| decls := [fn0 "Build"; fn0 "Other"]; types := [];
      vars := [[ {| vnames := ["X"; "Default"]; vtyped := false; vvalues := [VRef (FIdent "Other"); VRef (FIdent "Build")] |} ]];
      pkgdoc := "" |}.
-Theorem default_panic_refuted : exists pk, setDefault pk = DPanic.
-Proof. exists pk_panic_default. vm_compute. reflexivity. Qed.
+Theorem default_panic_before_repair_refuted :
+  exists pk, setDefault_ false pk = DPanic /\ exists g, setDefault pk = DSome g /\ f_name g = "Build".
+Proof. exists pk_panic_default. split; [vm_compute; reflexivity|]. eexists. split; vm_compute; reflexivity. Qed.
+
+(* the repaired setDefault never panics *)
+Theorem setDefault_no_panic : forall vs fs, setDefault_new vs fs <> DPanic.
+Proof.
+  induction vs as [|v r IH]; intros fs; simpl; [discriminate|].
+  destruct (declaredValue v "Default") as [| |[e|kvs]]; try discriminate; [apply IH|].
+  destruct (getFunction e fs); discriminate.
+Qed.
+
+(* before f02d247 a method of a generic namespace type was collected: (&NS{}).Build() cannot be compiled *)
+Definition pk_generic_ns : pkg :=
+  {| decls := [ {| fname := "Build"; recv := Some ("NS", false); tparams := false; params := []; res := []; fdoc := ""; fsyn := "" |} ];
+     types := [ {| tname := "NS"; is_namespace := true; tgeneric := true |} ]; vars := []; pkgdoc := "" |}.
+Theorem generic_namespace_before_repair_refuted :
+  exists pk d f t, In (d, f) (targets_ false pk) /\ In t (types pk) /\ tgeneric t = true /\
+                   c_recv (exec_call f) = Some (tname t) /\ targets pk = [].
+Proof.
+  exists pk_generic_ns. eexists. eexists. eexists. split; [left; reflexivity|]. split; [left; reflexivity|].
+  repeat split.
+Qed.
 
 (* ------------------------------------------------------------------ a concrete package *)
 Definition g (ns : list string) (t : pty) : pgroup := {| pnames := ns; pty_ := t |}.
@@ -732,7 +868,7 @@ Second line."; fsyn := "BuildAll builds it all." |};
          {| fname := "Gen"; recv := None; tparams := true; params := []; res := []; fdoc := ""; fsyn := "" |};
          {| fname := "M"; recv := Some ("Other", false); tparams := false; params := []; res := []; fdoc := ""; fsyn := "" |};
          {| fname := "hidden"; recv := None; tparams := false; params := []; res := []; fdoc := ""; fsyn := "" |} ];
-     types := [ {| tname := "NS"; is_namespace := true |}; {| tname := "Other"; is_namespace := false |} ];
+     types := [ {| tname := "NS"; is_namespace := true; tgeneric := false |}; {| tname := "Other"; is_namespace := false; tgeneric := false |} ];
      vars := [[spec1 "Default" (FSel "NS" "Ptr")]];
      pkgdoc := "" |}.
 
